@@ -482,6 +482,175 @@ def add_prefix_readers(pack):
     prefix("_read_comment_macro", "_")
     prefix("_read_meta", "^", qual="_read_meta")
 
+    # ---- _with_loc: the span a form is tagged with is the span its text occupies
+    class ReadFn:
+        """stand-in for the reader function being decorated: it consumes some text and returns a form"""
+
+    def loc_setup(eng, st):
+        psetup(eng, st)
+        eng.class_id(ReadFn)
+        from basilisp.lang import map as lmap_
+
+        def read_fn_hook(e, s, f, args, kwargs, line):
+            # the decorated reader function: reads on (the cursor never moves back over the start of its form), keeps the
+            # stream reader well-formed, returns a form or raises a syntax error
+            if not (isinstance(f, SV) and f.hint is ReadFn):
+                return None
+
+            def gen():
+                ctx = e.lift(args[0], s)
+                r = fld(s, ctx, "_reader")
+                p = pos(s, r)
+                s.ghost["loc_start"] = p
+                s.ghost["n_read"] = z3.Int(V.fresh_name("n_read"))
+                e.havoc_heap(s, ["_idx"])
+                for nm in ("dqv", "dqn"):
+                    if nm in s.aux:
+                        s.aux[nm] = z3.Const(V.fresh_name(nm), s.aux[nm].sort())
+                res = V.fresh_val("form")
+                s.assume(WF(e, s, r), pos(s, r) >= p, e.external_ref_fact(s, res))
+                s.assume(z3.Implies(V.is_ref(res), z3.Or(*[V.cls_of(V.Val.a(res)) == e.class_id(fc) for fc in FORM_CLASSES])))
+                s.ghost["loc_end"] = pos(s, r)
+                s.ghost["loc_form"] = res
+                s_r = s.copy()
+                yield s, SV(res)
+                yield s_r, Raise(Exc(rd.SyntaxError, ("syntax error",), note="raised by the decorated reader function"))
+
+            return gen()
+
+        eng.opaque_hook = read_fn_hook
+
+        def record_map(e, s, a, k):
+            d = a[0]
+            items = list(d.items) if hasattr(d, "items") and not isinstance(d, dict) else list(d.items())
+            s.ghost["loc_meta_items"] = [(e.lift(kk, s), e.lift(vv, s)) for kk, vv in items]
+            yield s, e.alloc(s, FORM_CLASSES[2])
+
+        eng.models[id(lmap_.map)] = Model("lmap.map (records the location entries)", record_map)
+        for fc in FORM_CLASSES:
+            def with_meta(e, s, a, k, fc=fc):
+                s.ghost["loc_with_meta_arg"] = e.lift(a[1], s)
+                s.ghost["loc_with_meta_self"] = e.lift(a[0], s)
+                yield s, e.alloc(s, fc)
+
+            eng.method_models[(fc, "with_meta")] = Model("IWithMeta.with_meta (recorded)", with_meta)
+
+            def cons(e, s, a, k, fc=fc):
+                s.ghost["loc_cons_args"] = (e.lift(a[0], s), e.lift(a[1], s))
+                yield s, e.alloc(s, fc)
+
+            eng.method_models[(fc, "cons")] = Model("IPersistentMap.cons (recorded)", cons)
+
+    c = pack.contract("contracts.drivers_c16:read_located")
+    c.param("f", OBJ(ReadFn)).param("ctx", OBJ(RC))
+    c.setup(loc_setup)
+    c.requires("the stream reader is well-formed", lambda a: WF(a.eng, a.pre.st, reader_of(a)))
+    c.raises(rd.SyntaxError)
+
+    def loc_post(a):
+        st = a.post.st
+        g = st.ghost
+        form = g.get("loc_form")
+        if form is None:
+            return z3.BoolVal(False)
+        r = reader_of(a)
+        p0, p1 = g["loc_start"], g["loc_end"]
+        supports_meta = z3.And(V.is_ref(form), z3.Or(*[V.cls_of(V.Val.a(form)) == a.eng.class_id(fc) for fc in (FORM_CLASSES[0], FORM_CLASSES[2], FORM_CLASSES[3])]))
+        if "loc_meta_items" not in g:
+            # the form was returned as it is: only right for forms that cannot carry metadata
+            return z3.And(z3.Not(supports_meta), a.result == form, p0 == pos(a.pre.st, r))
+        items = dict((str(z3.simplify(kk)), vv) for kk, vv in g["loc_meta_items"])
+
+        def entry(kwobj):
+            return items.get(str(z3.simplify(a.eng.lift(kwobj, st))))
+
+        want = {rd.READER_LINE_KW: V.mk_int(LINE(p0)), rd.READER_COL_KW: V.mk_int(COL(p0)), rd.READER_END_LINE_KW: V.mk_int(LINE(p1)), rd.READER_END_COL_KW: V.mk_int(COL(p1))}
+        if len(items) != 4 or any(entry(kk) is None for kk in want):
+            return z3.BoolVal(False)
+        return z3.And(supports_meta, p0 == pos(a.pre.st, r), *[entry(kk) == vv for kk, vv in want.items()],
+                      g.get("loc_with_meta_self", V.VNone) == form)
+
+    c.ensures("a form that can carry metadata is tagged with exactly four location entries: line and column of the first character of its text, and line and "
+              "column of the first character after it (both as the stream reader numbers them); any other form is returned untouched", loc_post)
+    c.replay(lambda m, ctx, ob: LOC_REPLAY)
+    c.replay_without_model = True
+
+    # ---- forms introduced by the # dispatch character: their span starts at the #, not at the character after it
+    VAL_AT = z3.Function("meta_val_at", V.Val, V.Val, V.Val)
+
+    def macro_setup(eng, st):
+        loc_setup(eng, st)
+        FMap = FORM_CLASSES[2]
+
+        def dispatched(e, s, a, k):
+            # any reader function of the dispatch table: reads a form that starts at the current position
+            ctx = e.lift(a[0], s)
+            r = fld(s, ctx, "_reader")
+            s.ghost["dispatch_at"] = pos(s, r)
+            s.ghost["n_read"] = z3.Int(V.fresh_name("n_read"))
+            e.havoc_heap(s, ["_idx"])
+            for nm in ("dqv", "dqn"):
+                if nm in s.aux:
+                    s.aux[nm] = z3.Const(V.fresh_name(nm), s.aux[nm].sort())
+            res = V.fresh_val("dispatched_form")
+            s.assume(WF(e, s, r), e.external_ref_fact(s, res))
+            s.assume(z3.Implies(V.is_ref(res), z3.Or(*[V.cls_of(V.Val.a(res)) == e.class_id(fc) for fc in FORM_CLASSES])))
+            s.ghost["dispatched_form"] = res
+            s_r = s.copy()
+            yield s, SV(res)
+            yield s_r, Raise(Exc(rd.SyntaxError, ("syntax error",), note="raised by the dispatched reader function"))
+
+        for fn_ in set(rd._read_macro_dispatch.values()):
+            eng.models[id(fn_)] = Model("a reader function of the # dispatch table (by contract)", dispatched)
+            eng._keep.append(fn_)
+
+        def val_at(e, s, a, k):
+            r = VAL_AT(e.lift(a[0], s), e.lift(a[1], s))
+            s.assume(z3.Or(V.is_none(r), V.is_int(r)))
+            yield s, SV(r)
+
+        eng.method_models[(FMap, "val_at")] = Model("meta.val_at", val_at)
+
+        def assoc(e, s, a, k):
+            s.ghost["loc_assoc_args"] = [e.lift(x, s) for x in a]
+            yield s, e.alloc(s, FMap)
+
+        eng.method_models[(FMap, "assoc")] = Model("meta.assoc (recorded)", assoc)
+
+    c = pack.contract("basilisp.lang.reader:_read_reader_macro")
+    c.param("ctx", OBJ(RC))
+    c.setup(macro_setup)
+    c.requires("the stream reader is well-formed and stands on a # that is followed by a character of the dispatch table",
+               lambda a: z3.And(WF(a.eng, a.pre.st, reader_of(a)), CH(pos(a.pre.st, reader_of(a))) == V.mk_str("#"),
+                                z3.Or(*[CH(pos(a.pre.st, reader_of(a)) + 1) == V.mk_str(ch) for ch in rd._read_macro_dispatch])))
+    c.raises(rd.SyntaxError)
+
+    def macro_post(a):
+        st, g = a.post.st, a.post.st.ghost
+        form = g.get("dispatched_form")
+        if form is None:
+            return z3.BoolVal(False)
+        r = reader_of(a)
+        p0 = pos(a.pre.st, r)
+        located = z3.And(V.is_ref(form), z3.Or(*[V.cls_of(V.Val.a(form)) == a.eng.class_id(fc) for fc in (FORM_CLASSES[0], FORM_CLASSES[2], FORM_CLASSES[3])]),
+                         z3.Not(V.is_none(META_OF(form))), z3.Not(V.is_none(VAL_AT(META_OF(form), a.eng.lift(rd.READER_COL_KW, st)))))
+        if "loc_assoc_args" not in g:
+            return z3.And(z3.Not(located), a.result == form, g["dispatch_at"] == p0 + 1)
+        args = g["loc_assoc_args"]
+        if len(args) != 5:
+            return z3.BoolVal(False)
+        pairs = {str(z3.simplify(args[1])): args[2], str(z3.simplify(args[3])): args[4]}
+        ln = pairs.get(str(z3.simplify(a.eng.lift(rd.READER_LINE_KW, st))))
+        cl = pairs.get(str(z3.simplify(a.eng.lift(rd.READER_COL_KW, st))))
+        if ln is None or cl is None:
+            return z3.BoolVal(False)
+        return z3.And(located, args[0] == META_OF(form), ln == V.mk_int(LINE(p0)), cl == V.mk_int(COL(p0)), g.get("loc_with_meta_self", V.VNone) == form)
+
+    c.ensures("a form read through the # dispatch table that carries a location starts, according to its tag, at the # itself (so that the tagged span "
+              "re-reads as the same form); a form without location is returned as it is", macro_post)
+    c.replay(lambda m, ctx, ob: LOC_REPLAY)
+    c.replay_without_model = True
+
     # ---- whitespace: skipped up to, and never beyond, the first character that is not whitespace (or a comma)
     import sys as _sys
 
@@ -579,6 +748,38 @@ for nl in ("\n", "\r\n", "\r"):
             got = type(e).__name__ + ": " + str(e)[:50]
         if got != want:
             bad.append("%r reads as %s, expected %s" % (text, got, want))
+for line in bad[:10]:
+    print(line)
+print("REPRODUCED" if bad else "not reproduced")
+'''
+
+
+LOC_REPLAY = r'''
+from basilisp.lang import reader
+K = (reader.READER_LINE_KW, reader.READER_COL_KW, reader.READER_END_LINE_KW, reader.READER_END_COL_KW)
+bad = []
+def span_of(form):
+    m = form.meta
+    return tuple(m.val_at(k) for k in K) if m is not None else None
+def true_loc(text, idx):
+    line, col = 1, 0
+    for i in range(1, idx + 1):
+        prev, cur = text[i - 1], (text[i] if i < len(text) else "")
+        if prev == "\n" or (prev == "\r" and cur != "\n"):
+            line, col = line + 1, 0
+        else:
+            col += 1
+    return line, col
+cases = [("(a b)", 0, 5), ("  [1 2]", 2, 7), ("\n\n(x\n y)", 2, 8), ("a\r\n(q)", 3, 6), ("a\r(q)", 2, 5), ("{:a 1}  ", 0, 6), ("sym", 0, 3), ("  #{1}", 2, 6), (";c\n [z]", 4, 7)]
+for text, start, end in cases:
+    forms = [f for f in reader.read_str(text) if hasattr(f, "meta") and f.meta is not None]
+    form = forms[-1] if forms else None
+    got = span_of(form) if form is not None else None
+    want = true_loc(text, start) + true_loc(text, end)
+    if got != want:
+        bad.append("%r: the form at [%d, %d) is tagged %r, its text really spans %r" % (text, start, end, got, want))
+    elif list(reader.read_str(text[start:end]))[0] != form:
+        bad.append("%r: re-reading the tagged span %r does not give the same form" % (text, text[start:end]))
 for line in bad[:10]:
     print(line)
 print("REPRODUCED" if bad else "not reproduced")
